@@ -359,3 +359,10 @@ pub fn verif_needs_drop(ctx: &mut LowerCtx<'_>, ty: TyRef) -> bool {
     };
     lowerer.needs_drop(ty)
 }
+
+/// Verification hook (C02): the drop function the lowerer generates for a
+/// type, without lowering a program.
+#[cfg(feature = "verif-hooks")]
+pub fn verif_generate_drop(ctx: &mut LowerCtx<'_>, ty: TyRef) -> Item {
+    Lowerer::generate_drop(ctx, ty)
+}
